@@ -332,7 +332,7 @@ func plant(p *Program, kind string, rng *rand.Rand) (*Program, string) {
 			extra = append(extra, &Stmt{LetName: &Ident{Name: "early"}, LetX: Num("1")})
 			bad = QName("early")
 		case "let-qualified":
-			bad = Name("early", "x")
+			bad = Name([][]string{{"early", "x"}, {"early", "x", "y"}, {"db", "T", "c"}, {"a", "b", "c", "d"}, {"x", "early"}}[rng.Intn(5)]...)
 			extra = append(extra, &Stmt{LetName: &Ident{Name: "early"}, LetX: Num("1")})
 		case "let-later":
 			bad = Name("later")
